@@ -652,7 +652,12 @@ class xRFM:
                 # below float32 resolution): fall back to the minimum-norm least-squares solution
                 beta = torch.linalg.lstsq(normal_matrix, X.T @ y).solution
             beta = beta.mean(dim=1)  # probably not the best way to do this
-            projection = beta / torch.norm(beta)
+            beta_norm = torch.norm(beta)
+            if not torch.isfinite(beta_norm) or beta_norm == 0:
+                # targets without a linear trend in this node (e.g. all equal): beta / 0 would be a NaN direction
+                projection = self._generate_random_projection(X.shape[1])
+            else:
+                projection = beta / beta_norm
         elif 'agop_on_subset' in self.split_method:
             if self.verbose:
                 print(f"Using {self.split_method} split method")
